@@ -169,6 +169,7 @@ func ruleSeekOrientation(c *Ctx, want map[string]bool) {
 		c.Floor("start-comparison branches in package mpt (Find, TrieStore.Seek, traverse)", counts["branch:pkg/core/mpt"], 3)
 		c.Floor("direction-ordered child iterations in package mpt", counts["order:pkg/core/mpt"], 1)
 		c.Floor("kept-subtree start resets in package mpt (Find, TrieStore.Seek, traverse)", counts["consumed:pkg/core/mpt"], 3)
+		c.Floor("strip arms taking the equal case in package mpt", counts["equalstrip:pkg/core/mpt"], 3)
 	}
 	if want == nil || want["pkg/core/storage"] {
 		c.Floor("key filters in package storage", counts["filter:pkg/core/storage"], 4)
@@ -458,6 +459,22 @@ func (ev *orientEval) eval(e ast.Expr, env *orientEnv) bool {
 			l, r := ev.eval(x.X, env), ev.eval(x.Y, env)
 			return (l == r) == (x.Op == token.EQL)
 		}
+		// len(key) <op> len(start) when key == start: the lengths are equal
+		if env.sign == 0 {
+			if lc, ok := ast.Unparen(x.X).(*ast.CallExpr); ok && f.calleeSym(lc) == "builtin.len" && len(lc.Args) == 1 {
+				if rc, ok := ast.Unparen(x.Y).(*ast.CallExpr); ok && f.calleeSym(rc) == "builtin.len" && len(rc.Args) == 1 {
+					if ev.s.roles.mentionsStart(f, lc.Args[0]) != ev.s.roles.mentionsStart(f, rc.Args[0]) {
+						ev.sawRelated = true
+						switch x.Op {
+						case token.LEQ, token.GEQ, token.EQL:
+							return true
+						case token.LSS, token.GTR, token.NEQ:
+							return false
+						}
+					}
+				}
+			}
+		}
 		switch x.Op {
 		case token.LSS, token.GTR, token.LEQ, token.GEQ, token.EQL, token.NEQ:
 			lhs, rhs, op := x.X, x.Y, x.Op
@@ -712,6 +729,69 @@ func (s *seekScan) scan() {
 	s.cmpSelector(nextKey)
 	s.rangeTranslation(nextKey)
 	s.startConsumed(baseDirs, nextKey)
+	s.equalTakesStripArm(nextKey)
+}
+
+// equalTakesStripArm: the arm that re-expresses the start relative to the node found (`start` has the node's path as
+// a prefix: strip it) must also take the case path == start; otherwise that case reaches the diverging arm, where
+// neither "before" nor "after" holds, and the scan goes on with an absolute start. The arm's whole condition is
+// folded under key == start (HasPrefix/Equal true, lengths equal); atoms that do not compare the two (a "start is
+// not empty" test) may take either value.
+func (s *seekScan) equalTakesStripArm(nextKey func(string) string) {
+	f := s.sf.cfg
+	ast.Inspect(s.sf.fd.Decl.Body, func(n ast.Node) bool {
+		is, ok := n.(*ast.IfStmt)
+		if !ok {
+			return true
+		}
+		// HasPrefix(<start>, <other>) somewhere in the condition, the body re-assigns that start variable
+		var v types.Object
+		ast.Inspect(is.Cond, func(x ast.Node) bool {
+			call, ok := x.(*ast.CallExpr)
+			if !ok || !prefixFuncs[f.calleeSym(call)] || len(call.Args) != 2 {
+				return true
+			}
+			if id, ok := ast.Unparen(call.Args[0]).(*ast.Ident); ok && s.roles.mentionsStart(f, call.Args[0]) && !s.roles.mentionsStart(f, call.Args[1]) {
+				if vv, ok := f.Info.ObjectOf(id).(*types.Var); ok && !vv.IsField() {
+					v = vv
+				}
+			}
+			return true
+		})
+		if v == nil {
+			return true
+		}
+		assigns := false
+		for _, st := range is.Body.List {
+			if as, ok := st.(*ast.AssignStmt); ok {
+				for _, l := range as.Lhs {
+					if id, ok := ast.Unparen(l).(*ast.Ident); ok && f.Info.ObjectOf(id) == v {
+						assigns = true
+					}
+				}
+			}
+		}
+		if !assigns {
+			return true
+		}
+		ev := &orientEval{s: s}
+		ev.eval(is.Cond, &orientEnv{sign: 0, free: map[string]bool{}, und: map[string]bool{}})
+		taken := false
+		for mask := 0; mask < 1<<len(ev.freeKeys) && !taken; mask++ {
+			fr := map[string]bool{}
+			for i, k := range ev.freeKeys {
+				fr[k] = mask&(1<<i) != 0
+			}
+			if ev.eval(is.Cond, &orientEnv{sign: 0, free: fr, und: map[string]bool{}}) {
+				taken = true
+			}
+		}
+		key := nextKey("equal-strip")
+		s.report("equalstrip", key, is.Pos(), taken,
+			fmt.Sprintf("`%s`: the case node path == start takes the arm that strips the path off the start", trunc(types.ExprString(is.Cond), 80)),
+			fmt.Sprintf("`%s` is false when the node's path equals the start: that case falls through to the arm for diverging paths, where it is neither before nor after, and the scan of the subtree goes on with the absolute start (keys are skipped)", trunc(types.ExprString(is.Cond), 80)))
+		return true
+	})
 }
 
 // startConsumed: where a comparison with the start point decides that a subtree is kept (it lies wholly inside
